@@ -12,7 +12,8 @@ package hxtimers
 //	period-exact   (period)    a one-shot and a periodic timer are observed, then EXACTLY 2^16, 2^17, 2^18 or 2^20
 //	                           start+cancel cycles, start+deliver cycles or reads follow, then everything is observed again
 //	id-wrap        (period)    the id counter pre-positioned just below 2^15, 2^16, 2^31, 2^32 (stands for that many
-//	                           starts), timers started across the boundary
+//	                           starts), timers started across the boundary — cheap: ALSO run in the normal tiers
+//	                           (cmd/hx_c05|hx_c06/diversity.go), because a body-only change never triggers -search
 //	live-slow      (schedule)  Chan() of capacity 1..3, the worker's burst on its own goroutine, the consumer takes one
 //	                           delivery at a time and only when the worker stands blocked in its send
 //	live-client    (schedule)  the same, and client calls (Cancel / IsScheduled / Size / RunAfter) are issued while the
